@@ -58,7 +58,7 @@ def read_case(path):
 class Prop:
     id = "C16"
     lean_module = "MuduoVerif.Props.C16"
-    gen_engines = ["LogFile", "LogFileSkel", "AsyncLog"]
+    gen_engines = ["LogFile", "LogFileSkel", "AsyncLog", "ThreadSkel"]
     drivers = ["logfile", "asynclog"]
     technique = ("Lean 4 invariant proofs over a pure-function model of LogFile/AppendFile and a thread-indexed transition "
                  "system of AsyncLogging + T1 extraction of every guard/constant + differential runs (T2 scripted clock and "
@@ -92,6 +92,7 @@ class Prop:
         "vlib/gen/logfileskel.py + vlib/logskel_common.py (same AST -> Generated/LogFileSkel.lean: statement skeletons of 11 "
         "functions of LogFile.cc / FileUtil.cc) and the hand-written reading Model/LogFileSkelDecl.lean of Model/LogFile.lean "
         "(which model term stands for which statement)",
+        "vlib/gen/threadskel.py + vlib/logskel_common.py (same AST -> Generated/ThreadSkel.lean: statement skeletons of MutexLock / MutexLockGuard, Condition::notify / waitForSeconds, CountDownLatch::wait / countDown, Thread::start / join, ThreadData::runInThread, and the deadline arithmetic of Condition::waitForSeconds translated into Lean) and the hand-written reading Model/ThreadSkelDecl.lean: that the code calls pthread in the modelled order is tied by decide; what the pthread / libc functions do stays trusted (POSIX)",
         "hand-written Model/LogFile.lean and Model/AsyncLog.lean (meaning of one statement shape, control skeleton of "
         "threadFunc, FixedBuffer::append), tied by the differential runs",
         "harness/interpose.h, harness/stdio_interpose.h (link-level interposition of time/fopen/fwrite_unlocked/fflush/ferror/fclose)",
@@ -108,6 +109,7 @@ class Prop:
         "theorem oversize_dropped: such a record is ignored by FixedBuffer::append without announcement)",
         "start() once, stop() at most once and after start() returned (else the destructor stops); appends may race with both; "
         "records appended after stop() was called are promised nothing",
+        "AsyncLogging is constructed with flushInterval >= 0: the code checks nothing, and a negative interval hands pthread_cond_timedwait an invalid timespec (theorem flush_wait_deadline; measured on the real code: EINVAL at once, waitForSeconds returns false, the back-end thread spins - 9 million timed waits per second)",
         "AsyncLogging's steps are atomic between two scheduling points; data races below that granularity are the subject of C08",
     ]
     partial_theorems = []
